@@ -518,4 +518,4 @@ pub(crate) mod verif_kmap;
 
 #[cfg(all(transparencies_stretto_verif, any(kani, test)))]
 #[path = "/verif/harness/h_lib.rs"]
-mod verif_harness;
+pub(crate) mod verif_harness;
